@@ -1,12 +1,213 @@
+//! C04: key rollover is safe in every interleaving and always completes.
+
+use std::collections::{BTreeMap, BTreeSet};
 use crate::history::Runner;
+use crate::hooks;
+use crate::objsets;
 use crate::rp::RpResult;
 
 #[derive(Default)]
 pub struct State {
     pub last_entitlement_change: usize,
+    /// (ca, rcn) -> product names under the current key at the last instant.
+    pub products: BTreeMap<(String, String), BTreeSet<String>>,
+    /// (ca, rcn) -> state at the last instant.
+    pub states: BTreeMap<(String, String), String>,
+    pub activations_seen: u64,
+    pub stagings_seen: u64,
+    pub finishes_seen: u64,
 }
 
-pub fn instant(_r: &mut Runner) { }
+/// Invariants over the stored object sets and the key state, evaluated after
+/// every operation and every background task.
+pub fn instant(r: &mut Runner) {
+    let cas: Vec<(usize, String)> = r.model.cas.values()
+        .map(|c| (c.inst, c.name.clone())).collect();
+    for (inst, name) in cas {
+        if !r.world.inst(inst).is_up() {
+            continue
+        }
+        let classes = hooks::with_faults_suspended(|| {
+            objsets::read(r.world.inst(inst).rt(), &name)
+        });
+        let infos = r.class_infos(inst, &name);
+        for class in &classes {
+            let key = (name.clone(), class.rcn.clone());
+            let info = infos.iter().find(|i| i.rcn == class.rcn);
+            // Key state and object sets move in step.
+            if let Some(info) = info {
+                let expect = match info.state.as_str() {
+                    "roll_new" => "staging",
+                    "roll_old" => "old",
+                    "active" | "roll_pending" => "current",
+                    _ => "",
+                };
+                if !expect.is_empty() && expect != class.state {
+                    r.violation(
+                        "C04", "sets_out_of_step",
+                        format!(
+                            "CA {name} class {}: key state is {} but the \
+                             object sets are in state {}",
+                            class.rcn, info.state, class.state
+                        )
+                    );
+                }
+            }
+            let mut current_products = BTreeSet::new();
+            for set in &class.sets {
+                match set.role.as_str() {
+                    "current_set" => {
+                        current_products = set.products.keys().cloned()
+                            .collect();
+                    }
+                    "staging_set" | "old_set" => {
+                        if !set.products.is_empty() {
+                            r.violation(
+                                "C04", "products_under_two_keys",
+                                format!(
+                                    "CA {name} class {}: the {} of key {} \
+                                     holds products {:?}; only a manifest \
+                                     and CRL are allowed there",
+                                    class.rcn, set.role, set.key_id,
+                                    set.products.keys().collect::<Vec<_>>()
+                                )
+                            );
+                        }
+                    }
+                    _ => { }
+                }
+            }
+            // Activation moves every product at once: the set of product
+            // names under the signing key is the same before and after.
+            let prev_state = r.ext.c04.states.get(&key).cloned();
+            if let Some(prev) = &prev_state {
+                if prev == "staging" && class.state == "old" {
+                    r.ext.c04.activations_seen += 1;
+                    let before = r.ext.c04.products.get(&key).cloned()
+                        .unwrap_or_default();
+                    // Child certificates and objects are named after their
+                    // content (payload or subject key), so equal names mean
+                    // equal payloads.
+                    if before != current_products {
+                        r.violation(
+                            "C04", "activation_changed_products",
+                            format!(
+                                "CA {name} class {}: products before \
+                                 activation {before:?}, after \
+                                 {current_products:?}", class.rcn
+                            )
+                        );
+                    }
+                }
+                if prev == "current" && class.state == "staging" {
+                    r.ext.c04.stagings_seen += 1;
+                }
+                if prev == "old" && class.state == "current" {
+                    r.ext.c04.finishes_seen += 1;
+                }
+            }
+            r.ext.c04.states.insert(key.clone(), class.state.clone());
+            r.ext.c04.products.insert(key, current_products);
+        }
+        // Classes that went away.
+        let alive: BTreeSet<String> = classes.iter().map(|c| c.rcn.clone())
+            .collect();
+        r.ext.c04.states.retain(|(ca, rcn), _| ca != &name || alive.contains(rcn));
+        r.ext.c04.products.retain(|(ca, rcn), _| ca != &name || alive.contains(rcn));
+    }
+}
+
 pub fn after_task(_r: &mut Runner) { }
-pub fn at_caught_up(_r: &mut Runner, _repo_inst: usize, _rpres: &RpResult) { }
-pub fn final_liveness(_r: &mut Runner) { }
+
+/// The published view: per resource class exactly one key's publication
+/// point carries products.
+pub fn at_caught_up(r: &mut Runner, repo_inst: usize, rpres: &RpResult) {
+    let jail = r.world.inst(repo_inst).cfg.rsync_jail();
+    let cas: Vec<(usize, String)> = r.model.cas.values()
+        .map(|c| (c.inst, c.name.clone())).collect();
+    for (inst, name) in cas {
+        for class in r.class_infos(inst, &name) {
+            if !r.class_live(inst, &name, &class.name_space, 0) {
+                continue
+            }
+            let dir = format!("{jail}{name}/{}/", class.name_space);
+            let points: Vec<&crate::rp::PubPoint> = rpres.pub_points.iter()
+                .filter(|pp| pp.repo_dir == dir).collect();
+            let with_products = points.iter()
+                .filter(|pp| !pp.products.is_empty()).count();
+            if with_products > 1 {
+                r.violation(
+                    "C04", "published_products_under_two_keys",
+                    format!(
+                        "CA {name} class {}: {} keys publish products in {dir}",
+                        class.rcn, with_products
+                    )
+                );
+            }
+            match class.state.as_str() {
+                "active" => {
+                    if points.len() > 1 {
+                        r.violation(
+                            "C04", "old_key_lingers",
+                            format!(
+                                "CA {name} class {} is in the single active \
+                                 key state but {} keys publish in {dir}",
+                                class.rcn, points.len()
+                            )
+                        );
+                    }
+                }
+                "roll_new" | "roll_old" => {
+                    for pp in &points {
+                        let is_active = class.active_key.as_deref()
+                            == Some(pp.ca_key.to_string().as_str());
+                        if !is_active && !pp.products.is_empty() {
+                            r.violation(
+                                "C04", "inactive_key_publishes_products",
+                                format!(
+                                    "CA {name} class {} ({}): key {} is not \
+                                     the active key but publishes {:?}",
+                                    class.rcn, class.state, pp.ca_key,
+                                    pp.products
+                                )
+                            );
+                        }
+                    }
+                }
+                _ => { }
+            }
+        }
+    }
+}
+
+/// Once faults stopped every roll finishes in the single active key state.
+pub fn final_liveness(r: &mut Runner) {
+    if !r.oracles.c04 {
+        return
+    }
+    let rounds = crate::c02::settle(r, 8);
+    if r.dead.is_some() {
+        return
+    }
+    if rounds.is_none() {
+        let mut stuck = Vec::new();
+        let cas: Vec<(usize, String)> = r.model.cas.values()
+            .map(|c| (c.inst, c.name.clone())).collect();
+        for (inst, name) in cas {
+            for class in r.class_infos(inst, &name) {
+                if class.state != "active"
+                    && r.class_live(inst, &name, &class.name_space, 0)
+                {
+                    stuck.push(format!("{name}/{}:{}", class.rcn, class.state));
+                }
+            }
+        }
+        r.violation(
+            "C04", "roll_does_not_finish",
+            format!(
+                "8 rounds of refresh, pump and activate did not bring every \
+                 resource class to the single active key state: {stuck:?}"
+            )
+        );
+    }
+}
